@@ -233,6 +233,9 @@ def replay(r):
     o = cc.worker((c['seed'], c['cfg']))
     fs = cc.oracle(o)
     ob = o['obs']
+    if o['skip']:
+        print('this case is outside the domain of the check now (%s): nothing to evaluate' % o['skip'])
+        return 0
     print('replayed on the implementation: architecture', o.get('arch'))
     print('  required: wrapped(x) == original(x) in eval mode; the user model keeps outputs, state_dict and .training flags; wrapper and seed in the mode found; immediate export has the original architecture')
     print('  observed: |wrapped-original| = %r, |user model after-before| = %r, state_dict changed %s new %s, wrapper/seed/user-root training = %s/%s/%s (found %s)' % (
